@@ -184,6 +184,8 @@ func cmdRun(args []string) int {
 	budget := fs.Int("budget", 600, "seconds")
 	trace := fs.Bool("trace", false, "trace calls")
 	solverK := fs.String("solver", "z3", "z3|z3-new|cvc5")
+	confirm := fs.Bool("confirm", false, "replay violations natively")
+	verbose := fs.Bool("v", false, "print violations in full")
 	var params multiFlag
 	fs.Var(&params, "p", "param k=v")
 	fs.Parse(args)
@@ -209,10 +211,24 @@ func cmdRun(args []string) int {
 		return 2
 	}
 	printRun(rr)
+	seen := map[string]bool{}
 	for _, v := range rr.ex.violations {
-		b, _ := json.MarshalIndent(v, "", " ")
-		fmt.Println(string(b))
-		break
+		if seen[v.Label] {
+			continue
+		}
+		seen[v.Label] = true
+		fmt.Printf("violation label=%s kind=%s trace=%v chooses=%v msg=%s\n", v.Label, v.Kind, v.Trace, v.Chooses, firstLine(v.Msg))
+		if *confirm {
+			path, ok, out := confirmViolation("DEV", v)
+			fmt.Printf("   native replay: reproduced=%v file=%s\n", ok, path)
+			if !ok {
+				fmt.Println("   ", out)
+			}
+		}
+		if *verbose {
+			b, _ := json.MarshalIndent(v, "", " ")
+			fmt.Println(string(b))
+		}
 	}
 	if len(rr.ex.violations) > 0 {
 		return 1
